@@ -109,7 +109,7 @@ REQUIRED_CLASSES = {
     'scale:backup-NONE': 1, 'scale:backup-ALL': 1, 'scale:backup-ONCE': 1, 'scale:backup-TWICE': 1,
     'scale:backup-LEFT': 1, 'scale:backup-RIGHT': 1, 'scale:offscale-asserted': 1,
     'las:format-matches-a-curve': 1,
-    'adapter:svg-checked': 1, 'adapter:x-interval-in-other-units': 1, 'adapter:has-absent-gap': 1, 'adapter:all-absent-curve': 1, 'adapter:huge-values': 1,
+    'adapter:svg-checked': 1, 'adapter:x-interval-in-other-units': 1, 'genlis:api-header-on-a-down-log': 1, 'adapter:has-absent-gap': 1, 'adapter:all-absent-curve': 1, 'adapter:huge-values': 1,
     'adapter:tiny-values': 1, 'adapter:spikes': 1, 'adapter:nonpositive-on-log-curve': 1, 'adapter:absent-output-checked': 1,
     'lisplot:svg-checked': 1, 'lisplot:xml-format': 1, 'lisplot:internal-film-pres': 1, 'lisplot:polyline-points>=1000': 1,
     'svgcheck:depth-mapping-confirmed(>=50%-of-vertices-at-sample-depths)': 1,
